@@ -2264,7 +2264,10 @@ def list_packages_model(repo):
         itl.module_env(PROJECT)['SUFFIXES'] = ['.py', '.pyc', '.cpython-312-x86_64-linux-gnu.so', '.abi3.so', '.so']
         _source_suffixes(itl)
         itl.sys_path = ['<P1>']
-        itl.sys_modules = {'pkg.loaded': 1, 'pkg.loaded.deep': 1, 'pkgother.x': 1, 'other': 1, 'pkg': 1}
+        # (modules loaded by file name - importlib.import_module('my-script'), a plug-in loader - sit in sys.modules under names no
+        # import statement can spell)
+        itl.sys_modules = {'pkg.loaded': 1, 'pkg.loaded.deep': 1, 'pkgother.x': 1, 'other': 1, 'pkg': 1,
+                           'pkg.plug-in': 1, 'my-script': 1, 'pkg.9lives.x': 1}
         itl.fs_dirs = {'<S1>/pkg': ['a.py', '__init__.py', 'sub', 'data', 'c.txt', 'b.so', 'a.so', 'speed.cpython-312-x86_64-linux-gnu.so',
                                     'stable.abi3.so', 'old.pyc', 'notes.txt.py', '_sysconfigdata__linux_x86_64-linux-gnu.py',
                                     'my-script.py', '3rd.py', '.hidden.py'], '<P1>/pkg': ['z.py'],
@@ -2295,7 +2298,8 @@ def list_packages_model(repo):
                 out.append(('lp-ident', 'list_packages(%r) proposes identifiers [%s]' % (root, order), got is not None and not bad,
                             'module names proposed on an import line must be identifiers: list_packages(%r) gives %s on a directory '
                             'holding a.py, b.so, speed.cpython-312-x86_64-linux-gnu.so, stable.abi3.so, old.pyc and files no import statement can name '
-                            '(notes.txt.py, _sysconfigdata__linux_x86_64-linux-gnu.py, my-script.py, 3rd.py)' % (root, exc or bad),
+                            '(notes.txt.py, _sysconfigdata__linux_x86_64-linux-gnu.py, my-script.py, 3rd.py), with modules loaded under the names '
+                            'pkg.plug-in, my-script and pkg.9lives.x' % (root, exc or bad),
                             'list_packages(%r) gives identifiers' % root))
         return out
     return repo.memo('list-packages-model', build)
